@@ -25,6 +25,8 @@ def inj_label(inject, ops_by_idx):
         return "none"
     if inject[0] == "fault":
         return f"fault:{inject[2]}@{ops_by_idx.get(inject[1], '?')}"
+    if inject[0] == "fault+cancel":
+        return f"fault:{inject[2]}@{ops_by_idx.get(inject[1], '?')}+cancel:native:cleanup"
     return f"cancel:{inject[1]}"
 
 
@@ -40,6 +42,16 @@ def plan_injections(flavor, K, ops, tier, rng):
             cancels.append(("cancel", st, k))
     if tier == "quick" and len(faults) > 45:
         faults = sorted(rng.sample(faults, 45))
+    if flavor == "asyncio":
+        # a fault, and then a task cancellation while the victim cleans up after it (1st, 2nd, 3rd suspension point)
+        # (only faults that are raised in the operation itself: a scheduled EOF is still in the future when the next
+        # suspension point - the parked read - is reached, so the cancellation would not fall into any clean-up)
+        hard = [f for f in faults if f[2] in ("ReadError", "WriteError", "ConnectError", "PartialWrite")]
+        if tier == "quick" and len(hard) > 10:
+            hard = sorted(rng.sample(hard, 10))
+        for f in hard:
+            for j in ((1, 2) if tier == "quick" else (1, 2, 3, 4)):
+                cancels.append(("fault+cancel", f[1], f[2], j))
     return faults, cancels
 
 
@@ -89,6 +101,9 @@ def run_enumeration(case, judge, counters_init):
             if inject[0] == "fault":
                 cnt["fault_runs"] += 1
                 cnt["faults_fired"] += 1 if res["fired"] else 0
+            elif inject[0] == "fault+cancel":
+                cnt["double_runs"] = cnt.get("double_runs", 0) + 1
+                cnt["double_both_fired"] = cnt.get("double_both_fired", 0) + (1 if res["fired"] and res.get("fault_fired") else 0)
             else:
                 cnt["cancel_runs"] += 1
                 cnt["cancels_fired"] += 1 if res["fired"] else 0
